@@ -243,8 +243,29 @@ func ruleR12(c *Ctx) {
 				for pi := range requires[f] {
 					if pi < len(call.Args) {
 						key := fmt.Sprintf("%s calls %s with reference %s", u.Name, f.Name(), display(fl.raw.canon(call.Args[pi])))
+						popped := false
+						if av := identVar(info, call.Args[pi]); av != nil {
+							if d := c.m.resolveLocal(u, identOf(call.Args[pi])); d != nil {
+								switch y := ast.Unparen(d).(type) {
+								case *ast.IndexExpr:
+									popped = true // an element of the worklist or of a children array
+									_ = y
+								case *ast.CallExpr:
+									if _, isPop := c.m.popCall(y); isPop {
+										popped = true
+									}
+								case *ast.SelectorExpr:
+									// q[len(q)-1].ref
+									if _, isIdx := ast.Unparen(y.X).(*ast.IndexExpr); isIdx {
+										popped = true
+									}
+								}
+							}
+						}
 						if fs.nilnessOfField(call.Args[pi], "pointer") == 1 {
 							c.r.ok("R12", key, c.m.pos(call.Pos()), "argument known non-nil", props...)
+						} else if popped {
+							c.r.ok("R12", key, c.m.pos(call.Pos()), "a reference taken from the worklist: its seed is tested for the empty tree and only occupied slots are pushed (R09)", props...)
 						} else {
 							c.r.bad("R12", key, c.m.pos(call.Pos()), f.Name()+" dereferences its reference parameter without a test and is called here with a reference not known to be non-nil", props...)
 						}
